@@ -40,9 +40,7 @@ theorem inv_forget (c : Cache) (id : Str) (h : Inv c) : Inv (c.forget id) :=
 
 theorem inv_invalidate (c : Cache) (id : Str) (h : Inv c) : Inv (c.invalidate id) := by
   unfold Cache.invalidate
-  cases c.get id with
-  | none => exact h
-  | some _ => exact inv_sub c _ h (fun _ hp => (List.mem_filter.mp hp).1) (fun _ hp => (List.mem_filter.mp hp).1)
+  exact inv_sub c _ h (fun _ hp => (List.mem_filter.mp hp).1) (fun _ hp => (List.mem_filter.mp hp).1)
 
 theorem inv_invalidateExpired (c : Cache) (now : Nat) (h : Inv c) : Inv (c.invalidateExpired now) :=
   inv_sub c _ h (fun _ hp => (List.mem_filter.mp hp).1) (fun _ hp => (List.mem_filter.mp hp).1)
